@@ -159,7 +159,7 @@ theorem minLenOk_mono (cfg : Cfg α) (h0 : Hdr) (log : List (Ev α)) (ev : Ev α
   · exact Or.inl ⟨p, payloads_head_mono log ev p hp, hs⟩
   · exact Or.inr h
 
-/-! ## the run invariant (minimum_length > 0, no 101) -/
+/-! ## the run invariant (no 101) -/
 
 /-- * before the writer has committed (`wroteHeader = false`) nothing but 1xx headers went down, the final
       header is not fixed and no encoder is open;
@@ -510,66 +510,73 @@ theorem inv_sniffLoop {cfg : Cfg α} {name : Bytes} :
       obtain ⟨i1, i2⟩ := inv_sniffLoop cs (n - cfg.size c) _ h1 (fun x hx => hne x (List.mem_cons_of_mem _ hx))
       exact ⟨i1, fun hz _ => i2 hz (Or.inr hw1)⟩
 
+theorem inv_commitHeader_plain {cfg : Cfg α} {name : Bytes} {st : St α} (h : Inv cfg name st)
+    (ho : st.encOpen = false) : Inv cfg name (commitHeader st) ∧ (commitHeader st).wroteHeader = true ∧
+      (commitHeader st).encOpen = false := by
+  cases hw : st.wroteHeader with
+  | true => rw [commitHeader_noop _ hw]; exact ⟨h, hw, ho⟩
+  | false =>
+    obtain ⟨hs, _, hl⟩ := h.pre hw
+    obtain ⟨c1, c2, c3, _, c5, _⟩ := commitHeader_spec st hw hs hl
+    refine ⟨⟨by rw [c1]; exact h.nm, fun hw' => (by rw [c3] at hw'; cases hw'), fun ho' => ?_,
+      fun _ _ => headerOnly_plainOnly _ c5⟩, c3, by rw [c2]; exact ho⟩
+    rw [c2, ho] at ho'; cases ho'
+
 theorem inv_copyRest {cfg : Cfg α} {name : Bytes} :
-    ∀ (chunks : List α) (st : St α), Inv cfg name st → (st.wroteHeader = true ∨ chunks = []) →
-      Inv cfg name (copyRest st chunks) := by
-  intro chunks st h hw
+    ∀ (chunks : List α) (st : St α), Inv cfg name st → Inv cfg name (copyRest st chunks) := by
+  intro chunks st h
   unfold copyRest
   by_cases ho : st.encOpen = true
   · simp only [ho, if_true]
-    clear hw
     induction chunks generalizing st with
     | nil => exact h
     | cons c cs ih => exact ih (encWrite st c) (inv_encWrite c h ho) (by simp [encWrite, implicitHeader, ho])
   · simp only [ho]
     have ho' : st.encOpen = false := by simpa using ho
-    rcases hw with hw | hw
-    · induction chunks generalizing st with
-      | nil => exact h
-      | cons c cs ih =>
-        exact ih (dsWrite st c) (inv_dsWrite c h hw ho') (by simp [dsWrite, implicitHeader, ho'])
-          (by simp [dsWrite, implicitHeader, ho']) (by simp [dsWrite, implicitHeader, hw])
-    · subst hw; exact h
+    obtain ⟨h', hw, ho2⟩ := inv_commitHeader_plain h ho'
+    generalize commitHeader st = s1 at *
+    clear h ho ho'
+    induction chunks generalizing s1 with
+    | nil => exact h'
+    | cons c cs ih =>
+      exact ih (dsWrite s1 c) (inv_dsWrite c h' hw ho2) (by simp [dsWrite, implicitHeader, hw])
+        (by simp [dsWrite, implicitHeader, ho2])
 
-theorem inv_rwReadFrom {cfg : Cfg α} {name : Bytes} {st : St α} (chunks : List α) (hmin : cfg.minLen > 0)
+theorem inv_rwReadFrom {cfg : Cfg α} {name : Bytes} {st : St α} (chunks : List α)
     (h : Inv cfg name st) : Inv cfg name (rwReadFrom cfg st chunks) := by
   unfold rwReadFrom
   by_cases hc : (!st.wroteHeader && decide (cfg.minLen > 0)) = true
   · simp only [hc, if_true]
-    obtain ⟨i1, i2⟩ := inv_sniffLoop (nonEmpty cfg chunks) 512 st h (nonEmpty_size cfg chunks)
+    obtain ⟨i1, _⟩ := inv_sniffLoop (nonEmpty cfg chunks) 512 st h (nonEmpty_size cfg chunks)
     unfold afterSniff
     by_cases hz : (sniffLoop cfg (nonEmpty cfg chunks) 512 st).2.2 = 0
     · simp only [hz, if_true]
-      exact inv_copyRest _ _ i1 (Or.inl (i2 hz (Or.inl (by decide))))
+      exact inv_copyRest _ _ i1
     · simp only [hz, if_false]; exact i1
   · simp only [hc]
-    have hw : st.wroteHeader = true := by
-      cases hw : st.wroteHeader with
-      | true => rfl
-      | false => simp [hw, hmin] at hc
-    exact inv_copyRest _ _ h (Or.inl hw)
+    exact inv_copyRest _ _ h
 
 /-! ### any script -/
 
-theorem inv_step {cfg : Cfg α} {name : Bytes} {st : St α} (op : Op α) (hmin : cfg.minLen > 0)
+theorem inv_step {cfg : Cfg α} {name : Bytes} {st : St α} (op : Op α)
     (h101 : op ≠ Op.writeHeader 101) (h : Inv cfg name st) : Inv cfg name (step cfg st op) := by
   cases op with
   | writeHeader s => exact inv_rwWriteHeader s (fun e => h101 (by rw [e])) h
   | write p => exact inv_rwWrite p h
   | flush => exact inv_rwFlush h
-  | readFrom cs => exact inv_rwReadFrom cs hmin h
+  | readFrom cs => exact inv_rwReadFrom cs h
   | hset k v => exact h.congr rfl rfl rfl rfl rfl
   | hadd k v => exact h.congr rfl rfl rfl rfl rfl
   | hdel k => exact h.congr rfl rfl rfl rfl rfl
 
-theorem inv_run {cfg : Cfg α} {name : Bytes} (hmin : cfg.minLen > 0) :
+theorem inv_run {cfg : Cfg α} {name : Bytes} :
     ∀ (ops : List (Op α)) (st : St α), No101 ops → Inv cfg name st → Inv cfg name (run cfg st ops)
   | [], _, _, h => h
   | op :: ops, st, h101, h => by
     have : run cfg st (op :: ops) = run cfg (step cfg st op) ops := rfl
     rw [this]
-    exact inv_run hmin ops _ (fun o ho => h101 o (List.mem_cons_of_mem _ ho))
-      (inv_step op hmin (h101 op List.mem_cons_self) h)
+    exact inv_run ops _ (fun o ho => h101 o (List.mem_cons_of_mem _ ho))
+      (inv_step op (h101 op List.mem_cons_self) h)
 
 /-! ### Close -/
 
@@ -691,7 +698,7 @@ theorem payloads_copyRest (st : St α) (chunks : List α) :
     payloads (copyRest st chunks).log = payloads st.log ++ chunks := by
   unfold copyRest; split
   · exact payloads_foldl_encWrite _ _
-  · exact payloads_foldl_dsWrite _ _
+  · rw [payloads_foldl_dsWrite, payloads_commitHeader]
 
 theorem payloads_rwReadFrom (cfg : Cfg α) (st : St α) (chunks : List α) :
     payloads (rwReadFrom cfg st chunks).log = payloads st.log ++ nonEmpty cfg chunks := by
@@ -829,7 +836,8 @@ theorem committed_step (cfg : Cfg α) (st : St α) (op : Op α) (hw : st.wroteHe
     · simp_all
     · split
       · obtain ⟨a, b⟩ := committed_foldl_encWrite (nonEmpty cfg cs) st; exact ⟨by rw [a, hw], b⟩
-      · obtain ⟨a, b⟩ := committed_foldl_dsWrite (nonEmpty cfg cs) st; exact ⟨by rw [a, hw], b⟩
+      · rw [commitHeader_noop _ hw]
+        obtain ⟨a, b⟩ := committed_foldl_dsWrite (nonEmpty cfg cs) st; exact ⟨by rw [a, hw], b⟩
   | hset k v => exact ⟨hw, rfl⟩
   | hadd k v => exact ⟨hw, rfl⟩
   | hdel k => exact ⟨hw, rfl⟩
@@ -908,21 +916,21 @@ theorem sent_copyRest (st : St α) (cs : List α) (x : Nat × Hdr) (h : st.sent 
     (copyRest st cs).sent = some x := by
   unfold copyRest; split
   · exact sent_foldl_encWrite x cs st h
-  · exact sent_foldl_dsWrite x cs st h
+  · exact sent_foldl_dsWrite x cs _ (sent_commitHeader st x h)
 
 /-- the state of a handler that has announced the final status `s` and not called WriteHeader since:
     either nothing is committed and the writer still holds `s`, or `s` is what was sent -/
 def StatusHeld (s : Nat) (st : St α) : Prop :=
-  (st.wroteHeader = false ∧ st.sent = none ∧ st.statusCode = s) ∨ ∃ h, st.sent = some (s, h)
+  (st.wroteHeader = false ∧ st.sent = none ∧ st.statusCode = s ∧ st.encOpen = false) ∨ ∃ h, st.sent = some (s, h)
 
 theorem held_rwWrite (cfg : Cfg α) (s : Nat) (hs0 : s ≠ 0) (hs1 : isInformational s = false) (st : St α) (p : α)
     (h : StatusHeld s st) :
     StatusHeld s (rwWrite cfg st p) ∧ ((cfg.size p == 0) = false → ∃ h, (rwWrite cfg st p).sent = some (s, h)) := by
-  rcases h with ⟨hw, hn, hc⟩ | ⟨hh, hsent⟩
+  rcases h with ⟨hw, hn, hc, he⟩ | ⟨hh, hsent⟩
   · unfold rwWrite
     by_cases hz : (cfg.size p == 0) = true
     · simp only [hz, if_true]
-      exact ⟨Or.inl ⟨hw, hn, hc⟩, fun h => by simp at h⟩
+      exact ⟨Or.inl ⟨hw, hn, hc, he⟩, fun h => by simp at h⟩
     · simp only [hz]
       have hcd : connectDefault st = st := by
         unfold connectDefault
@@ -962,20 +970,32 @@ theorem held_sniffLoop (cfg : Cfg α) (s : Nat) (hs0 : s ≠ 0) (hs1 : isInforma
         (fun x hx => hne x (List.mem_cons_of_mem _ hx))
       exact ⟨i1, fun hz _ => i2 hz (Or.inr w2')⟩
 
-theorem held_step (cfg : Cfg α) (hmin : cfg.minLen > 0) (s : Nat) (hs0 : s ≠ 0) (hs1 : isInformational s = false)
+theorem held_copyRest (s : Nat) (hs0 : s ≠ 0) (hs1 : isInformational s = false) (st : St α) (cs : List α)
+    (h : StatusHeld s st) : ∃ h, (copyRest st cs).sent = some (s, h) := by
+  rcases h with ⟨hw, hn, hc, he⟩ | ⟨hh, hsent⟩
+  · have hcm : (commitHeader st).sent = some (s, st.hdr) := by
+      unfold commitHeader
+      have : (st.statusCode != 0) = true := by simp [hc, hs0]
+      simp [hw, this, dsWriteHeader, hc, hs1, hn, fixSent, hs0]
+    unfold copyRest
+    rw [if_neg (by simp [he])]
+    exact ⟨_, sent_foldl_dsWrite _ cs _ hcm⟩
+  · exact ⟨hh, sent_copyRest _ _ _ hsent⟩
+
+theorem held_step (cfg : Cfg α) (s : Nat) (hs0 : s ≠ 0) (hs1 : isInformational s = false)
     (st : St α) (op : Op α) (hop : ∀ i, op ≠ Op.writeHeader i) (h : StatusHeld s st) :
     StatusHeld s (step cfg st op) := by
   cases op with
   | writeHeader i => exact absurd rfl (hop i)
   | write p => exact (held_rwWrite cfg s hs0 hs1 st p h).1
   | flush =>
-    rcases h with ⟨hw, hn, hc⟩ | ⟨hh, hsent⟩
+    rcases h with ⟨hw, hn, hc, he⟩ | ⟨hh, hsent⟩
     · have hcd : connectDefault st = st := by
         unfold connectDefault
         have : (st.statusCode == 0) = false := by simp [hc, hs0]
         simp [this]
       simp only [step, rwFlush, hcd, hw]
-      exact Or.inl ⟨hw, hn, hc⟩
+      exact Or.inl ⟨hw, hn, hc, he⟩
     · exact Or.inr ⟨hh, sent_rwFlush st _ hsent⟩
   | readFrom cs =>
     simp only [step, rwReadFrom]
@@ -989,28 +1009,26 @@ theorem held_step (cfg : Cfg α) (hmin : cfg.minLen > 0) (s : Nat) (hs0 : s ≠ 
         exact Or.inr ⟨hh, sent_copyRest _ _ _ e⟩
       · simp only [hz, if_false]; exact i1
     · simp only [hc]
-      rcases h with ⟨hw, _, _⟩ | ⟨hh, hsent⟩
-      · simp [hw, hmin] at hc
-      · exact Or.inr ⟨hh, sent_copyRest _ _ _ hsent⟩
+      exact Or.inr (held_copyRest s hs0 hs1 st _ h)
   | hset k v => exact h
   | hadd k v => exact h
   | hdel k => exact h
 
-theorem held_run (cfg : Cfg α) (hmin : cfg.minLen > 0) (s : Nat) (hs0 : s ≠ 0) (hs1 : isInformational s = false) :
+theorem held_run (cfg : Cfg α) (s : Nat) (hs0 : s ≠ 0) (hs1 : isInformational s = false) :
     ∀ (ops : List (Op α)) (st : St α), (∀ op ∈ ops, ∀ i, op ≠ Op.writeHeader i) → StatusHeld s st →
       StatusHeld s (run cfg st ops)
   | [], _, _, h => h
   | op :: ops, st, hops, h => by
     have : run cfg st (op :: ops) = run cfg (step cfg st op) ops := rfl
     rw [this]
-    exact held_run cfg hmin s hs0 hs1 ops _ (fun o ho => hops o (List.mem_cons_of_mem _ ho))
-      (held_step cfg hmin s hs0 hs1 st op (hops op List.mem_cons_self) h)
+    exact held_run cfg s hs0 hs1 ops _ (fun o ho => hops o (List.mem_cons_of_mem _ ho))
+      (held_step cfg s hs0 hs1 st op (hops op List.mem_cons_self) h)
 
 theorem held_rwClose (cfg : Cfg α) (s : Nat) (hs0 : s ≠ 0) (hs1 : isInformational s = false) (st : St α)
     (h : StatusHeld s st) : ∃ h, (rwClose cfg st).sent = some (s, h) := by
   have key : ∃ h, (closeHeader cfg st).sent = some (s, h) := by
     unfold closeHeader
-    rcases h with ⟨hw, hn, hc⟩ | ⟨hh, hsent⟩
+    rcases h with ⟨hw, hn, hc, _⟩ | ⟨hh, hsent⟩
     · simp only [hw, Bool.not_false, if_true]
       have : ∃ s1 : St α, (if clGtMin cfg st.hdr = true then rwInit cfg st else st) = s1 ∧
           s1.wroteHeader = false ∧ s1.sent = none ∧ s1.statusCode = s := by
@@ -1036,7 +1054,7 @@ theorem held_rwClose (cfg : Cfg α) (s : Nat) (hs0 : s ≠ 0) (hs1 : isInformati
   · exact ⟨hh, e⟩
 
 /-- before the final WriteHeader: header edits and 1xx responses commit nothing -/
-def Uncommitted (st : St α) : Prop := st.wroteHeader = false ∧ st.sent = none
+def Uncommitted (st : St α) : Prop := st.wroteHeader = false ∧ st.sent = none ∧ st.encOpen = false
 
 theorem uncommitted_run (cfg : Cfg α) : ∀ (ops : List (Op α)) (st : St α), (∀ op ∈ ops, Preliminary op) →
     Uncommitted st → Uncommitted (run cfg st ops)
@@ -1054,7 +1072,7 @@ theorem uncommitted_run (cfg : Cfg α) : ∀ (ops : List (Op α)) (st : St α), 
       have h2xx : (200 ≤ i && i ≤ 299) = false := by simp; omega
       simp only [step, rwWriteHeader, informational, connectImmediate, vary304, h1, h304, h2xx, Bool.false_and,
         Bool.and_false, if_true, dsWriteHeader, Uncommitted, is1xx_informational h1 h2]
-      exact ⟨by simpa using h.1, by simpa using h.2⟩
+      exact ⟨by simpa using h.1, by simpa using h.2.1, by simpa using h.2.2⟩
 
 theorem held_after_final_writeHeader (st : St α) (s : Nat) (hs1 : is1xx s = false) (h : Uncommitted st) :
     StatusHeld s (rwWriteHeader st s) := by
@@ -1065,10 +1083,10 @@ theorem held_after_final_writeHeader (st : St α) (s : Nat) (hs1 : is1xx s = fal
   split
   · right
     refine ⟨(vary304 s { st with statusCode := s }).hdr, ?_⟩
-    have : (vary304 s { st with statusCode := s }).sent = none := by unfold vary304; split <;> simp [h.2]
+    have : (vary304 s { st with statusCode := s }).sent = none := by unfold vary304; split <;> simp [h.2.1]
     simp [dsWriteHeader, hni, this, fixSent]
   · left
-    unfold vary304; split <;> simp [h.1, h.2]
+    unfold vary304; split <;> simp [h.1, h.2.1, h.2.2]
 
 end
 
@@ -1175,9 +1193,13 @@ theorem hdr_foldl_dsWrite : ∀ (cs : List α) (st : St α), (cs.foldl dsWrite s
 
 theorem hdr_copyRest (st : St α) (cs : List α) :
     (copyRest st cs).hdr = st.hdr ∧ (copyRest st cs).encOpen = st.encOpen := by
+  have hcm : (commitHeader st).hdr = st.hdr ∧ (commitHeader st).encOpen = st.encOpen := by
+    unfold commitHeader; split
+    · split <;> simp [dsWriteHeader]
+    · exact ⟨rfl, rfl⟩
   unfold copyRest; split
   · exact ⟨hdr_foldl_encWrite _ _, (committed_foldl_encWrite _ _).2⟩
-  · exact ⟨hdr_foldl_dsWrite _ _, (committed_foldl_dsWrite _ _).2⟩
+  · exact ⟨by rw [hdr_foldl_dsWrite, hcm.1], by rw [(committed_foldl_dsWrite _ _).2, hcm.2]⟩
 
 theorem hdr_step (cfg : Cfg α) (st : St α) (op : Op α) {k : Bytes} (h1 : k ≠ kVary) (h2 : k ≠ kCT) :
     hValues (step cfg st op).hdr k = hValues (hdrEffect op st.hdr) k ∨
